@@ -116,10 +116,14 @@ def tree_of(snap):
 
 def expected_streams(cmd):
     """What the scripted command writes to stdout / stderr, as a text-mode reader sees it (CR LF and CR read as LF)."""
-    out = "".join(o[5:] + "\n" if o.startswith("echo:") else "%s  50%%\n%s 100%%\n" % (o[9:], o[9:])
-                  for o in cmd if o.startswith(("echo:", "progress:")))
-    err = "".join("err:" + o[5:] + "\n" if o.startswith("echo:") else "%s...\n" % o[9:]
-                  for o in cmd if o.startswith(("echo:", "progress:")))
+    out, err = "", ""
+    for o in cmd:
+        if o.startswith("echo:"):
+            out += o[5:] + "\n"; err += "err:" + o[5:] + "\n"
+        elif o.startswith("progress:"):
+            out += "%s  50%%\n%s 100%%\n" % (o[9:], o[9:]); err += "%s...\n" % o[9:]
+        elif o.startswith("accent:"):
+            out += "caf\u00e9 %s\n" % o[7:]; err += "w\u00e4rme %s\n" % o[7:]
     return out, err
 
 
@@ -200,7 +204,7 @@ def judge_links(h, res, desc):
             if pl.command != st["cmd"]:
                 why = "command line not recorded"
             elif pl.byproducts.get("return-value") != 0:
-                why = "exit status not recorded"
+                why = "exit status not recorded (return-value %r; stderr %r)" % (pl.byproducts.get("return-value"), str(pl.byproducts.get("stderr"))[-300:])
             elif st["streams"] and (pl.byproducts.get("stdout"), pl.byproducts.get("stderr")) != expected_streams(st["cmd"]):
                 why = "the recorded output is not what the command wrote (stdout %r, stderr %r; expected %r)" % (
                     pl.byproducts.get("stdout"), pl.byproducts.get("stderr"), expected_streams(st["cmd"]))
